@@ -119,6 +119,22 @@ def rule_scope_order(prog):
                         bc.loc(n["sp"]),
                         "inside the context of procedure `%s` the identifier under the cursor is looked up directly in the "
                         "global table: locals and parameters no longer shadow globals" % proc_bind.split("#")[0], ("site",))
+    # every LookupTable literal (also those only handed on to helpers)
+    for b in feature_bodies(prog) + [x for x in fc.bodies if x["p"].startswith("spl_frontend::table::semantic")]:
+        bc = b["_crate"]
+        for st, parents in hir.walk(b["body"]):
+            if st.get("k") != "Struct" or st.get("adt") != LT:
+                continue
+            f = {x["name"]: x["e"] for x in st["fields"]}
+            lt = hir.strip(f.get("local_table", {}))
+            proc_here = any(p.get("k") == "Arm" and hir.pat_variant(p["pat"]) == GENTRY + "::Procedure" for p in parents) or any(
+                hir.adt_path(bc, pp["bt"]) in ("spl_frontend::ast::ProcedureDeclaration", "spl_frontend::table::ProcedureEntry")
+                for q in b["params"] for pp in hir.pat_bindings(q))
+            is_none = lt.get("k") == "Path" and last(lt["res"].get("ctor_of", "")) == "None"
+            n_sites += 1
+            out.add(b["d"], "LookupTable literal carries the local table of the procedure in scope", not (is_none and proc_here),
+                    bc.loc(st["sp"]), "a LookupTable without local table is built where a procedure is in scope: its parameters "
+                    "and variables are invisible to whatever is resolved or proposed through it", ("literal",))
     # find_referenced_identifiers: global-first resolution (a GlobalTable lookup of the cursor ident anywhere in a
     # function that also has the procedure's local table at hand)
     for b in feature_bodies(prog):
